@@ -108,3 +108,19 @@ let () =
       match v with
       | List [g] -> List [Atom "wf"; Atom (if List.for_all Printer.wf_stmt (grammar_of g) then "1" else "0")]
       | _ -> raise (Shape "wf args"))
+
+(* render "<path>" "<source>" l:c:e -> (ok "<path:line:col:>" <line number> "<quoted source line>" <from> <to>)
+                                      | (panic "<site>")          [Model/Diag.v: main.rs ErrMsg/WarnMsg] *)
+let () =
+  register "render" (fun v ->
+      match v with
+      | List [path; source; sp] ->
+          (match Extracted.Diag.render (cl (string_ path)) (cl (string_ source)) (span_of sp) with
+           | Prelude.Ok r ->
+               let (a, b) = r.Extracted.Diag.r_cols in
+               List [Atom "ok"; ss r.Extracted.Diag.r_header; sn r.Extracted.Diag.r_line_no;
+                     ss r.Extracted.Diag.r_line; sn a; sn b]
+           | Prelude.Err () -> List [Atom "err"]
+           | Prelude.Panic s -> List [Atom "panic"; ss s]
+           | Prelude.OutOfFuel -> List [Atom "outoffuel"])
+      | _ -> raise (Shape "render args"))
